@@ -396,6 +396,15 @@ class Describer:
         n = skip_noise(tree)
         if n is None:
             return opaque("empty")
+        if n.kind == "ev" and n.ev[0] == "codec" and n.ev[1] == "P0":
+            # a wrapper that only delegates: one codec call on the caller's stream whose result is returned as it is
+            # (the wrapper may translate exceptions; that shows in the raise log, not in the grammar)
+            nxt = skip_noise(n.next)
+            leaves = pure_leaves(nxt) if nxt is not None else None
+            if leaves and all(l[1] == "raise" or (l[1] == "ret" and l[2] == n.ev[4]) for l in leaves) and any(l[1] == "ret" for l in leaves):
+                inner = dict(self.reader_desc(n.raw[2]))
+                inner["delegated_by"] = getattr(codec, "ref", repr(codec))
+                return inner
         if n.kind == "ret" and self.returns_instance(n):
             return self.match_entity_reader(tree, codec)
         if n.kind in ("ret", "raise"):
